@@ -195,9 +195,9 @@ pub fn ldro(a: &Args) {
                     out.emit(&json!({"ev":"ldro","impl":name,"what":"decision","sf":sf.factor(),"bw":bi,
                                      "supported":1,"ldro":d,"txns":[]}));
                     out.emit(&json!({"ev":"ldro","impl":name,"what":"written","sf":sf.factor(),"bw":bi,
-                                     "supported":1,"ldro":-1,"txns":txns,"prior":0}));
+                                     "supported":1,"ldro":-1,"txns":txns,"prior":0,"dec":d}));
                     out.emit(&json!({"ev":"ldro","impl":name,"what":"written","sf":sf.factor(),"bw":bi,
-                                     "supported":1,"ldro":-1,"txns":txns_ones,"prior":255}));
+                                     "supported":1,"ldro":-1,"txns":txns_ones,"prior":255,"dec":d}));
                 }
             };
             {
